@@ -45,6 +45,7 @@ class Clock:
         self.log = []
         self.callbacks = 0
         self.fail_at = None
+        self.fail_at_next = None      # one-shot failpoint armed for the next call only (survives reset once)
 
     def tick(self, site):
         self.callbacks += 1
@@ -55,6 +56,7 @@ class Clock:
     def reset(self):
         self.log = []
         self.callbacks = 0
+        self.fail_at, self.fail_at_next = self.fail_at_next, None
 
     def of(self, kind):
         return [e for e in self.log if e[0] == kind]
@@ -62,7 +64,7 @@ class Clock:
 
 def make_names(kind, d):
     if kind == "str":
-        return [f"f{j}" for j in range(d)]
+        return ["f3", "f0", "f7", "f1", "f5", "f2", "f6", "f4"][:d]      # deliberately not in sorted order
     if kind == "int":
         return list(range(d))
     if kind == "float":
@@ -160,6 +162,10 @@ class UniqueStream:
     def __init__(self, names, seed=0, exact=False, ykind="int"):
         self.names, self.rnd, self.t, self.exact, self.ykind = list(names), random.Random(seed), 0, exact, ykind
         self.origin = {}
+        # every even-indexed feature carries ONE falsy value (0, 0.0 or False) at some early time: still unique per
+        # feature, and legal input ("unusual input" class: zero / boolean feature values)
+        self.falsy_at = {j: (self.rnd.randrange(0, 6), self.rnd.choice([0, 0.0, False]))
+                         for j in range(len(self.names)) if j % 2 == 0}
 
     def next(self):
         t = self.t
@@ -167,6 +173,8 @@ class UniqueStream:
         x = {}
         for j, n in enumerate(self.names):
             v = 1000 * (t + 1) + j
+            if j in self.falsy_at and self.falsy_at[j][0] == t:
+                v = self.falsy_at[j][1]
             x[n] = v
             self.origin[(repr(n), v)] = t
         y = self.rnd.randrange(-5, 6)
